@@ -112,6 +112,7 @@ func runTwoIPs(name string) (rec tRec) {
 	switch name {
 	case "two_ips_ban_peer":
 		a.BanPeer(b4.ID())
+		obs.Scores = [][2]int{{score("127.0.0.1"), score("::1")}}
 	default:
 		obs.Scores = [][2]int{}
 		for i := 0; i < 2; i++ {
